@@ -1046,7 +1046,14 @@ function_number_t define_new_function (char *name, int num_arg, int num_local, u
   if (exact_types && num_arg)
     {
       *((unsigned short *) mem_block[A_ARGUMENT_INDEX].block + num) = (unsigned short)(mem_block[A_ARGUMENT_TYPES].current_size / sizeof (unsigned short));
-      add_to_mem_block (A_ARGUMENT_TYPES, (char *) type_of_locals_ptr, num_arg * sizeof (*type_of_locals_ptr));
+      /* After "Too many local variables" the arguments past the limit are not in the
+       * table of local types: do not read them from behind it. */
+      int known = (num_arg < max_num_locals) ? num_arg : max_num_locals;
+      lpc_type_t any = TYPE_ANY;
+
+      add_to_mem_block (A_ARGUMENT_TYPES, (char *) type_of_locals_ptr, known * sizeof (*type_of_locals_ptr));
+      for (; known < num_arg; known++)
+        add_to_mem_block (A_ARGUMENT_TYPES, (char *) &any, sizeof (any));
     }
   return (function_number_t)num;
 }
